@@ -724,7 +724,7 @@ pub fn c20_convenience(rep: &mut Report, pats: &[Vec<u8>]) {
 }
 
 pub fn run_c20(ctx: &Ctx, rep: &mut Report) {
-    let n = ctx.tier.pick(12, 140, 5000);
+    let n = ctx.tier.pick(12, 140, 15_000);
     let mut root = Rng::new(ctx.seed).fork(0xC20 + ctx.shard as u64);
     for i in 0..n {
         let mut rng = root.fork(i as u64);
